@@ -1,7 +1,9 @@
-(* Table-driven evaluation for the C04/C06 oracles: nodes are visited once in rank order, so the cost per
-   valuation is linear in the circuit (Sem.eval re-evaluates shared cones).  Nothing is trusted about the
-   order: every use re-checks the result with `consistentb` (see fast_eval_certified). *)
-From stdpp Require Import strings gmap sets fin_sets sorting.
+(* Compiled evaluation for the C04/C06 oracles.  String-keyed maps are too slow for 2^k sweeps, so a circuit is
+   compiled once into a program over positive indices (nodes in rank order); a valuation is a Pmap.
+   Nothing is trusted about the order or the evaluation: every valuation is re-checked against the compiled
+   node equations of the circuit (check_prog), and check_prog is proved equal to Oracle.consistentb
+   (Proofs/ComposeProofs.v, check_prog_spec).  Definitions only. *)
+From stdpp Require Import strings gmap pmap sets fin_sets sorting.
 From CG Require Export Base.Oracle.
 Open Scope string_scope.
 
@@ -10,15 +12,49 @@ Global Instance rank_le_dec r p q : Decision (rank_le r p q). Proof. unfold rank
 Definition topo_order (c : circuit) : list (string * ninfo) :=
   merge_sort (rank_le (rank_table c)) (map_to_list c).
 
-Definition tval (T : gmap string bool) (a : val) : val := λ n, default (a n) (T !! n).
-Definition eval_step (a : val) (T : gmap string bool) (p : string * ninfo) : gmap string bool :=
-  <[p.1 := if is_free p.2 then a p.1 else
-           match n_ty p.2 with C0 => false | C1 => true | t => gate_val t (tval T a) (n_fi p.2) end]> T.
-Definition eval_table (order : list (string * ninfo)) (a : val) : gmap string bool := foldl (eval_step a) ∅ order.
-Definition fast_eval (order : list (string * ninfo)) (a : val) : val := tval (eval_table order a) a.
+Notation index := (string → option positive).
+Definition index_of (ord : list (string * ninfo)) : gmap string positive :=
+  list_to_map (imap (λ k p, (p.1, Pos.of_succ_nat k)) ord).
 
-(* all valuations of the free nodes of c, each extended to all nodes *)
-Definition free_list (c : circuit) : list string := elements (free_nodes c).
-Definition sweep (c : circuit) (chk : val → bool) : bool :=
-  let ord := topo_order c in
-  forallb (λ a, let v := fast_eval ord a in eq_on (free_list c) v a && consistentb c v && chk v) (all_vals (free_list c)).
+(* one node equation: value at cn_ix = gate over the values at cn_fi (an absent name reads as false) *)
+Record cnode := { cn_ix : option positive; cn_free : bool; cn_ty : gtype; cn_fi : list (option positive) }.
+Definition compile_node (ix : index) (f : string → string) (p : string * ninfo) : cnode :=
+  {| cn_ix := ix (f p.1); cn_free := is_free p.2; cn_ty := n_ty p.2; cn_fi := (λ x, ix (f x)) <$> elements (n_fi p.2) |}.
+(* the equations of G, with every name read through f, except those of the nodes in skip *)
+Definition compile (ix : index) (f : string → string) (G : circuit) (skip : gset string) : list cnode :=
+  compile_node ix f <$> filter (λ p, p.1 ∉ skip) (map_to_list G).
+
+Definition look (T : Pmap bool) (o : option positive) : bool :=
+  match o with Some k => default false (T !! k) | None => false end.
+Definition gate_of (t : gtype) (l : list bool) : bool := xorb (g_inv t) (foldr (g_op t) (g_unit t) l).
+Definition cnode_val (T : Pmap bool) (c : cnode) : bool :=
+  match cn_ty c with C0 => false | C1 => true | t => gate_of t (look T <$> cn_fi c) end.
+Definition cnode_ok (T : Pmap bool) (c : cnode) : bool :=
+  cn_free c || match cn_ty c with C0 => negb (look T (cn_ix c)) | C1 => look T (cn_ix c)
+               | _ => eqb (look T (cn_ix c)) (cnode_val T c) end.
+Definition check_prog (T : Pmap bool) (prog : list cnode) : bool := forallb (cnode_ok T) prog.
+Definition run_prog (ones : list positive) (prog : list cnode) : Pmap bool :=
+  foldl (λ T c, match cn_ix c with
+                | Some k => <[k := if cn_free c then bool_decide (k ∈ ones) else cnode_val T c]> T
+                | None => T end) ∅ prog.
+Fixpoint psubsets (l : list positive) : list (list positive) :=
+  match l with [] => [[]] | x :: r => let s := psubsets r in s ++ ((x ::.) <$> s) end.
+Definition eqs_ok (T : Pmap bool) (l : list (option positive * option positive)) : bool :=
+  forallb (λ p, eqb (look T p.1) (look T p.2)) l.
+
+(* For every valuation of the free nodes of R: evaluate R, certify the result against R's own equations, then
+   check the compiled side conditions (programs that must be satisfied, pairs of names that must be equal,
+   and a free-form predicate on the value table). *)
+Record side := { s_progs : list (list cnode); s_eqs : list (option positive * option positive);
+                 s_pred : (option positive → bool) → bool }.
+Definition sweepc (R : circuit) (mk : index → side) : bool :=
+  let ord := topo_order R in
+  let idx := index_of ord in
+  let ix : index := λ n, idx !! n in
+  let progR := compile_node ix id <$> ord in
+  let frees := omap (λ c, if cn_free c then cn_ix c else None) progR in
+  let sd := mk ix in
+  forallb (λ ones, let T := run_prog ones progR in
+                   check_prog T progR && forallb (check_prog T) (s_progs sd) && eqs_ok T (s_eqs sd) && s_pred sd (look T))
+          (psubsets frees).
+Definition no_pred : (option positive → bool) → bool := λ _, true.
